@@ -968,3 +968,14 @@ Example diagonalize_nonvacuous :
 Proof.
   cbv zeta. split; [apply cwf_by_computation; reflexivity|]. repeat (split; [reflexivity|]). vm_compute. reflexivity.
 Qed.
+
+Example take_nonvacuous :
+  let x := mkCOO [2; 3] [[0; 0]; [0; 2]; [1; 1]] [1; 2; 3] 7 in
+  cwf Z x /\ np_norm_axis (-1) (ndim_of Z x) = Some 1%nat
+  /\ Forall (fun i => - nth 1 (c_shape x) 0 <= i < nth 1 (c_shape x) 0) [2; -3; 2]
+  /\ coo_take_list Z x [2; -3; 2] (-1) = Ok (mkCOO [2; 3] [[0; 0]; [0; 1]; [0; 2]] [2; 1; 2] 7)
+  /\ coo_take_int Z x (-2) (-1) = Ok (mkCOO [2] [[1]] [3] 7).
+Proof.
+  cbv zeta. split; [apply cwf_by_computation; reflexivity|]. split; [reflexivity|].
+  split; [repeat constructor; simpl; lia|]. split; vm_compute; reflexivity.
+Qed.
